@@ -653,11 +653,13 @@ theorem C02_HS_U_exactly_once (E : UHS.Env U π) (rank : UHS.UNT U → Nat) (Goo
              fun hp => C02_HS_U_complete E rank Good R d fuel k s' out h p hp⟩⟩
 
 /-- the inner statement: in a quiescent state, an exhausted non-terminal has popped every program
-    derivable from it -/
+    derivable from it all of whose sub-programs are accepted by the filter (`HG.clean`; no filter: every
+    derivable program, `HG.clean_of_all`) -/
 theorem C02_HS_U_exhausted_complete (E : UHS.Env U π) (rank : UHS.UNT U → Nat) (Good : π → Prop) (H : OHyp E rank Good)
     (s : UHS.St U π) (hb : Base E s) (hall : All E rank s) (nt : UHS.UNT U) (hf : Full E rank s nt)
-    (hempty : s.heapOf nt = []) (p : Prog) (hg : Der E p nt) : ∃ k, AList.lookup k (s.succOf nt) = some p :=
-  exhausted_complete H hb hall (rank nt) nt rfl hf hempty p hg
+    (hempty : s.heapOf nt = []) (p : Prog) (hg : Der E p nt) (hcl : PS.HG.clean E.filter p = true) :
+    ∃ k, AList.lookup k (s.succOf nt) = some p :=
+  exhausted_complete H hb hall (rank nt) nt rfl hf hempty p hg hcl
 
 def uRank2 (nt : UHS.UNT Nat) : Nat := nt.2
 
